@@ -2,7 +2,7 @@
    Model: Model/Loss.v est_of / var_of / ivw, with the least-squares solution v as an oracle input. *)
 From Coq Require Import List Arith Bool QArith Qcanon.
 Import ListNotations.
-Require Import PGM.Base.Qnn PGM.Model.Loss PGM.Proofs.LossP.
+Require Import PGM.Base.Qnn PGM.Model.Loss PGM.Proofs.LossP PGM.Proofs.BlueP.
 Local Open Scope Qc_scope.
 
 (* a linear estimator v accepted by the test Q^T v = 1 is unbiased: on noise-free answers y = Q x it returns sum x *)
@@ -16,6 +16,15 @@ Theorem C09_noise_free_gives_N l N : l <> [] -> (forall p, In p l -> fst p = N /
 Proof. exact (ivw_const l N). Qed.
 Print Assumptions C09_noise_free_gives_N.
 
+(* the per-measurement estimate is the BEST linear unbiased one: among all w with Q^T w = 1 (every unbiased linear estimate <w, y> of the
+   count) a solution v in the column space of Q - which the minimum-norm solution of Q^T v = 1 is - has the smallest norm, hence the
+   smallest variance sigma^2 |v|^2 *)
+Theorem C09_min_norm_solution_is_best_linear_unbiased Q m p (v w z : vec) sigma :
+  (forall j, (j < p)%nat -> tmatvec Q m v j = 1) -> (forall j, (j < p)%nat -> tmatvec Q m w j = 1) ->
+  (forall i, (i < m)%nat -> v i = matvec Q p z i) ->
+  dot m v v <= dot m w w /\ var_of m v sigma <= var_of m w sigma.
+Proof. intros Hv Hw Hz. split. exact (min_norm_is_blue Q m p v w z Hv Hw Hz). exact (min_norm_minimises_variance Q m p v w z sigma Hv Hw Hz). Qed.
+Print Assumptions C09_min_norm_solution_is_best_linear_unbiased.
 Theorem C09_at_least_one l : 1 <= ivw l.
 Proof. exact (ivw_at_least_one l). Qed.
 Print Assumptions C09_at_least_one.
